@@ -4,7 +4,7 @@ C09 — the effect of the key-object primitives (`keyIncr`, `keyRelease`, `keyCl
 `withKey`, secret / key allocation) on the resource invariant, as `Spec`s.
 -/
 set_option linter.unusedVariables false
-namespace AsherahVerif.Env
+namespace AsherahVerif.Env.Res
 
 theorem setAt_setAt {α : Type} (l : List α) (i : Nat) (f g : α → α) :
     setAt (setAt l i f) i g = setAt l i (fun x => g (f x)) := by
@@ -303,4 +303,4 @@ theorem newKeyObj_spec (T : CTab) (h : Nat → Int) (c : Int) (r : Bool) (m s : 
   intro w hi
   exact hi.allocKey { created := c, revoked := r, mat := m, sec := s } ⟨rfl, rfl, rfl, rfl⟩ rfl rfl rfl
 
-end AsherahVerif.Env
+end AsherahVerif.Env.Res
